@@ -63,8 +63,8 @@ def handleCase (c : Case) : Verdict :=
       let precSpec : Option Nat := if sp.precision ≥ 0 then some sp.precision.toNat else none
       let wantFmt := FloatText.printfFormat sp.alwaysSigned precSpec (notationOf (c.get "cls"))
       let wantOut := FloatText.padTo sp.minimumLength.toNat (sp.alignment == .left) (if sp.pad == 0 then 32 else sp.pad) rend
-      let specStr := "rec=" ++ fmtUnits 8 wantFmt ++ " out=" ++ fmtUnits 8 wantOut
-      let sp1 := specStr == obs && wantFmt == reff && (!isf || promoteOk bits dbits)
+      -- the property speaks about the text produced; the recorded format belongs to the correspondence only
+      let sp1 := c.obs.contains ("out=" ++ fmtUnits 8 wantOut) && wantFmt == reff && (!isf || promoteOk bits dbits)
       { corr := corr && fmtM == .ok reff, spec := sp1, model := m,
         why := if sp1 then "" else s!"output is not libc's rendering of {String.ofList (wantFmt.map Char.ofNat)} padded to the field",
         branch := s!"fmt.{c.get "route"}.{c.get "ty"}.{c.get "cls"}.{lenClass rend.length}", nontrivial := true }
@@ -79,8 +79,8 @@ def handleCase (c : Case) : Verdict :=
                 else (if isf then fromFloat render (fun _ => dbits) bits letter else fromDouble render bits letter)
       let valid := [101, 102, 103, 69, 70, 71].contains letter
       let (corr, m) := corrOutcome mo (if valid then some [37, letter] else none) c
-      let specStr := if valid then "rec=" ++ fmtUnits 8 [37, letter] ++ " out=" ++ fmtUnits 8 rend else "throw bad_format"
-      let sp1 := specStr == obs && (!valid || reff == [37, letter]) && (!isf || promoteOk bits dbits)
+      let sp0 := if valid then c.obs.contains ("out=" ++ fmtUnits 8 rend) else obs == "throw bad_format"
+      let sp1 := sp0 && (!valid || reff == [37, letter]) && (!isf || promoteOk bits dbits)
       { corr, spec := sp1, model := m,
         why := if sp1 then "" else "text is not libc's rendering of the requested conversion",
         branch := s!"{c.op}.{ty}." ++ (if valid then lenClass rend.length else "badletter"), nontrivial := true }
